@@ -192,8 +192,12 @@ def run_check(check_id, tier, seed, replay=None, limit=None):
     if replay:
         with open(replay) as f:
             rp = json.load(f)
-        cases = [rp["desc"]]
+        # wave-driven / fault-indexed cases replay deterministically; perturbation-driven ones depend on OS timing,
+        # so the case is re-executed several times and the reproduction rate is printed. The stored witness stands on its own.
+        repeats = int(os.environ.get("VERIF_REPLAY_REPEATS", getattr(mod, "REPLAY_REPEATS", 40)))
+        cases = [rp["desc"]] * repeats
         tier = rp.get("tier", tier)
+        print(f"replaying {replay}: recorded verdict: {rp.get('result', {}).get('detail', '')[:300]}")
     else:
         cases = list(mod.gen_cases(tier, seed))
         if limit:
@@ -219,6 +223,13 @@ def run_check(check_id, tier, seed, replay=None, limit=None):
                 except queue.Empty:
                     return
                 res = wp.run_case(i, d, timeout)
+                if res.get("status") == "inconclusive" and res.get("detail", "").startswith(("wall-clock watchdog", "worker died", "worker pipe")):
+                    # environmental (load, interpreter quirks): re-execute once in a fresh worker before reporting it
+                    first = res
+                    res = wp.run_case(i, d, timeout)
+                    res.setdefault("counters", {})["cases_reexecuted_after_watchdog"] = 1
+                    if res.get("status") == "inconclusive":
+                        res["detail"] = f"{res.get('detail')} (second attempt; first: {first.get('detail')})"
                 with agg_lock:
                     agg.add(i, d, res, open_mechs)
         finally:
@@ -309,8 +320,10 @@ def run_check(check_id, tier, seed, replay=None, limit=None):
         print(f"    {k} = {v}")
     for k, v in sorted(agg.sets.items()):
         print(f"    |{k}| = {len(v)}")
+    if replay:
+        print(f"replay: violation reproduced in {len(agg.violations)} of {agg.evaluations} re-executions")
     if agg.violations:
-        for l in vio_lines:
+        for l in vio_lines[: 1 if replay else None]:
             print(l)
         return 1
     if reasons:
